@@ -5,14 +5,16 @@
    kills.  Operations must be steps of the DrfFs protocol; observations are judged against its state. *)
 EXTENDS DrfFs, TraceBase
 
-VARIABLES obs,     \* obs[j]: what the final file j was found to hold the first time it was seen: [data, vis] (run sequences)
+VARIABLES pubwant, \* pubwant[j]: the samples of window j that write calls had asked for when file j was published
+          obs,     \* obs[j]: what the final file j was found to hold the first time it was seen: [data, vis] (run sequences)
           rseen    \* rseen[r]: blocks reader r returned at its previous pass
-allvars == <<vars, tvars, obs, rseen>>
-ovars == <<obs, rseen>>
+allvars == <<vars, tvars, obs, rseen, pubwant>>
+ovars == <<obs, rseen, pubwant>>
 
 TInit == /\ TBInit /\ FInit(Hdr.cfg)
          /\ obs = [j \in 1..(Len(Hdr.cfg.bound) - 1) |-> [data |-> <<>>, vis |-> <<>>, set |-> FALSE]]
          /\ rseen = [r \in 1..Hdr.nreaders |-> <<>>]
+         /\ pubwant = [j \in 1..(Len(Hdr.cfg.bound) - 1) |-> <<>>]
 
 Pairs(q) == [i \in 1..Len(q) |-> <<q[i][1], q[i][2]>>]
 Spans(q) == [i \in 1..Len(q) |-> <<q[i][1], q[i][1] + q[i][2] - 1>>]   \* <<first, length>> -> <<lo, hi>>
@@ -56,7 +58,10 @@ TOpData ==
                  ELSE IF fst[E.j].st = "orphan" THEN Refuse("pub-published-a-tmp-file-of-a-dead-session")
                  ELSE IF fst[E.j].st = "open" THEN Refuse("pub-renamed-before-close")
                  ELSE IF fst[E.j].st # "closed" THEN Refuse("pub-renamed-a-missing-file")
-                 ELSE Rename(E.j, Ok) /\ Adv /\ UNCHANGED ovars
+                 ELSE /\ Rename(E.j, Ok) /\ Adv /\ UNCHANGED <<obs, rseen>>
+                      \* what a final file has to hold is what had been asked for when it was published: a later call
+                      \* that names samples of its period can only be refused
+                      /\ pubwant' = IF Ok THEN [pubwant EXCEPT ![E.j] = Clip(want, Lo(Win(E.j)), Hi(Win(E.j)))] ELSE pubwant
             [] E.op = "unlink" ->
                  IF fst[E.j].st \notin {"open", "closed", "orphan"} THEN Refuse("pub-removed-a-missing-file")
                  ELSE RemoveTmp(E.j, Ok) /\ Adv /\ UNCHANGED ovars
@@ -116,7 +121,7 @@ FileNotes(fs) ==
           <<"pub-final-file-unreadable", ~f.ok>>,
           <<"pub-final-file-holds-values-never-written", f.ok /\ (f.bad # 0 \/ ~SubsetRuns(Pairs(f.data), w))>>,
           \* (after a kill `want` still holds what the dead process was about to write: completeness is then judged by acc at the end)
-          <<"C02-final-file-incomplete", f.ok /\ ~Faulted /\ crashed # 2 /\ Pairs(f.data) # w>>,
+          <<"C02-final-file-incomplete", f.ok /\ ~Faulted /\ crashed # 2 /\ Pairs(f.data) # pubwant[f.j]>>,
           <<"C07-fill-outside-continuous-mode", f.ok /\ cfg.mode # "contU" /\ f.fill # <<>>>>}))
        \cup FileNotes(Tail(fs))
 
@@ -148,7 +153,7 @@ EndNotes(datanow) ==
        <<"C02-tmp-file-left-after-clean-close", flt = 0 /\ crashed # 1 /\ Tmps # {}>>})
 
 TSnap ==
-  /\ E.ev = "snap" /\ UNCHANGED <<vars, rseen>>
+  /\ E.ev = "snap" /\ UNCHANGED <<vars, rseen, pubwant>>
   /\ obs' = NewObs(E.files)
   /\ AdvNote(Names({
         <<"pub-final-names-differ-from-the-protocol-state", SeqSet(E.fin) # Finals>>,
@@ -163,7 +168,7 @@ TSnap ==
 
 \* a reader pass: never fails, sees exactly the finalized files, never less than before
 TRpass ==
-  /\ E.ev = "rpass" /\ UNCHANGED <<vars, obs>>
+  /\ E.ev = "rpass" /\ UNCHANGED <<vars, obs, pubwant>>
   /\ rseen' = [rseen EXCEPT ![E.r] = IF E.ok /\ ~E.nochannel THEN Pairs(E.blocks) ELSE @]
   /\ AdvNote(Names({
         <<"C09-reader-failed", ~E.ok>>,
